@@ -644,6 +644,77 @@ fn gen_form(rng: &mut Rng, small: bool) -> Form {
     Form { boundary, body, valid, exp_fields, exp_fname: fname, exp_ctype: ctype, exp_file: content, lookups }
 }
 
+
+/// part-header fuzz: the header block of the first part is assembled from tokens, so that every branch of
+/// `httparse::parse_headers` (Partial / Complete / the four error kinds, bare LF, obs-text, control bytes,
+/// too many headers) and of the nom `Content-Disposition` grammar is reached under every framing
+fn gen_header_fuzz(rng: &mut Rng) -> Form {
+    let boundary = b"b".to_vec();
+    let mut body = b"--b\r\n".to_vec();
+    let names: [&[u8]; 9] = [b"Content-Disposition", b"content-disposition", b"Content-Type", b"X-A", b"x", b"", b"Bad Name", b"A\x7f", b"!#$%&'*+-.^_`|~"];
+    let seps: [&[u8]; 7] = [b": ", b":", b" :", b":\t", b":  ", b": \t ", b""];
+    let cd_tokens: [&[u8]; 14] = [
+        b"form-data", b"; ", b";", b"name=\"", b"a", b"\"", b"filename=\"", b" ", b"name=", b"\"\"", b"\xc3\xa9", b"\xff", b"f", b"FORM-DATA",
+    ];
+    let values: [&[u8]; 10] = [b"", b"x", b"\x01", b"\xc3\xa9", b"a  ", b"a\tb", b"\x00", b"\x7f", b"a\rb", b" \t"];
+    let eols: [&[u8]; 6] = [b"\r\n", b"\r\n", b"\r\n", b"\n", b"\r", b"\r\r\n"];
+    let tame = rng.chance(1, 2);
+    let nheaders = if tame { rng.range(1, 2) } else { rng.range(0, 3) };
+    for k in 0..nheaders {
+        if tame {
+            // a well-formed header line in one of the spellings httparse accepts
+            if k == 0 {
+                body.extend_from_slice(rng.pick(&names[..2]));
+                body.extend_from_slice(rng.pick(&[b":".as_ref(), b": ", b":\t", b":  "]));
+                body.extend_from_slice(b"form-data; name=\"");
+                body.extend_from_slice(rng.pick(&[b"a".as_ref(), b"A", b"\xc3\xa9", b"a b", b"a;b"]));
+                body.extend_from_slice(b"\"");
+            } else {
+                body.extend_from_slice(rng.pick(&[b"Content-Type: text/plain".as_ref(), b"X-A:", b"x: \xc3\xa9", b"X-A: a\tb  "]));
+            }
+            body.extend_from_slice(rng.pick(&[b"".as_ref(), b" ", b"\t"]));
+            body.extend_from_slice(rng.pick(&[b"\r\n".as_ref(), b"\r\n", b"\n"]));
+            continue;
+        }
+        body.extend_from_slice(if rng.chance(1, 2) { names[0] } else { rng.pick(&names) });
+        body.extend_from_slice(rng.pick(&seps));
+        if rng.chance(2, 3) {
+            if rng.chance(1, 2) {
+                body.extend_from_slice(b"form-data; name=\"a\"");
+                if rng.chance(1, 3) {
+                    body.extend_from_slice(b"; filename=\"f\"");
+                }
+                if rng.chance(1, 6) {
+                    body.extend_from_slice(rng.pick(&cd_tokens));
+                }
+            } else {
+                for _ in 0..rng.range(1, 7) {
+                    body.extend_from_slice(rng.pick(&cd_tokens));
+                }
+            }
+        } else {
+            body.extend_from_slice(rng.pick(&values));
+        }
+        body.extend_from_slice(rng.pick(&[b"".as_ref(), b"", b" ", b"\t"]));
+        body.extend_from_slice(rng.pick(&eols));
+    }
+    body.extend_from_slice(if tame { rng.pick(&eols[..4]) } else { rng.pick(&eols) });
+    body.extend_from_slice(rng.pick(&[b"v".as_ref(), b"", b"v\r\nw", b"\xff"]));
+    body.extend_from_slice(b"\r\n--b");
+    body.extend_from_slice(rng.pick(&[b"\r\n".as_ref(), b"\r\n", b"", b"--\r\n", b"x\r\n", b"\r"]));
+    body.extend_from_slice(b"Content-Disposition: form-data; name=\"file\"; filename=\"f\"\r\nContent-Type: t\r\n\r\nDATA\r\n--b--\r\n");
+    Form {
+        boundary,
+        body,
+        valid: false,
+        exp_fields: Vec::new(),
+        exp_fname: Vec::new(),
+        exp_ctype: Vec::new(),
+        exp_file: Vec::new(),
+        lookups: vec![b"a".to_vec()],
+    }
+}
+
 // ------------------------------------------------------------------------------------------------
 // framings
 
@@ -775,6 +846,29 @@ fn gen_mp(rng: &mut Rng, n: u64, tier: &str, emit: &mut dyn FnMut(Vec<String>)) 
     }
 }
 
+fn gen_fuzz(rng: &mut Rng, n: u64, emit: &mut dyn FnMut(Vec<String>)) {
+    for i in 0..n {
+        let form = gen_header_fuzz(rng);
+        emit_mp(&form, &vec![Some(form.body.clone())], 0, true, emit);
+        if i % 20 == 0 {
+            // every split point
+            for cut in 0..=form.body.len() {
+                emit_mp(&form, &cut_at(&form.body, &[cut]), 0, true, emit);
+            }
+        } else {
+            for _ in 0..2 {
+                let frames = random_framing(rng, &form.body);
+                emit_mp(&form, &frames, sched_of(rng), true, emit);
+            }
+            if rng.chance(1, 4) {
+                let frames = random_framing(rng, &form.body);
+                let frames = with_error(rng, frames);
+                emit_mp(&form, &frames, sched_of(rng), false, emit);
+            }
+        }
+    }
+}
+
 fn gen_body(rng: &mut Rng, n: u64, emit: &mut dyn FnMut(Vec<String>)) {
     for i in 0..n {
         // plain streamed bodies: arbitrary bytes, arbitrary framing
@@ -836,6 +930,7 @@ fn gen_body(rng: &mut Rng, n: u64, emit: &mut dyn FnMut(Vec<String>)) {
 
 fn generate(rng: &mut Rng, n: u64, tier: &str, emit: &mut dyn FnMut(Vec<String>)) {
     gen_mp(rng, n, tier, emit);
+    gen_fuzz(rng, n / 5, emit);
     gen_body(rng, n / 4, emit);
 }
 
